@@ -228,6 +228,8 @@ def scen_c12(ops, reentrant, ctor_timeouts, t_arg, poll, overshoot, fault_call=-
                 cmo = L.acquire_ctx(True, t_arg, poll)
                 eff_t, res = t_arg, run(cmo.__aenter__(), t)
             if res[0] == 'would-block':
+                if eff_t != -1:     # non-blocking (-2) or timed (>= 0) acquisition must come back
+                    devs.append('timed-or-nonblocking-acquire-blocks-forever')
                 blocked = True
                 break
             elapsed = W.now - t0
